@@ -268,3 +268,28 @@ UNITS.append(Unit('C04_matrix_ops', 'C04', list(MATMAT.values()) + MATRIX_IMPLS 
                   broadcast=('l0', 'ax_vec_from_refl'),
                   notes='same-shape Matrix kernels, 16 scalar impls, 12 assign impls, 31 element-wise maps on Matrix; shape preserved, '
                         'every element, mismatch rejected'))
+
+# ---------------------------------------------------------------- reductions (L1: equal to their mathematical definition over the reals)
+UT = 'linalg::utils::'
+RED_SPEC = r'''
+/// sum over i < k of x[i]*y[i] over the reals (definition of the dot product, property C04)
+pub open spec fn dsum(x: Seq<f64>, y: Seq<f64>, k: int) -> real decreases k {
+    if k <= 0 { 0real } else { dsum(x, y, k - 1) + rv(x[k - 1]) * rv(y[k - 1]) }
+}
+pub proof fn lemma_dsum8(x: Seq<f64>, y: Seq<f64>, k: int) requires k >= 0
+    ensures dsum(x, y, k + 8) == dsum(x, y, k) + (rv(x[k]) * rv(y[k]) + rv(x[k + 1]) * rv(y[k + 1]) + rv(x[k + 2]) * rv(y[k + 2]) + rv(x[k + 3]) * rv(y[k + 3])
+        + rv(x[k + 4]) * rv(y[k + 4]) + rv(x[k + 5]) * rv(y[k + 5]) + rv(x[k + 6]) * rv(y[k + 6]) + rv(x[k + 7]) * rv(y[k + 7]))
+{
+    reveal_with_fuel(dsum, 10);
+}
+'''
+dot = Fn(UT + 'dot', ret='s', level='L1', valid='x@.len() == y@.len()', panics={1: 'REJECT', 2: 'DEAD'},
+         ensures=['C04.dot.valid:: x@.len() == y@.len()', 'C04.dot.def:: rv(s) == dsum(x@, y@, x@.len() as int)'],
+         loops={1: {'invariant': ['n == x@.len()', 'n == y@.len()', 'chunks == (n - n % 8) / 8', 'C04.dot.unrolled:: rv(s) == dsum(x@, y@, i * 8)'],
+                    'body_start': 'lemma_dsum8(x@, y@, i * 8);'},
+                2: {'invariant': ['n == x@.len()', 'n == y@.len()', 'chunks == (n - n % 8) / 8', 'C04.dot.rem:: rv(s) == dsum(x@, y@, j as int)']}})
+norm = Fn(UT + 'norm', ret='r', level='L1', ensures=['C04.norm.def:: rv(r) == r_sqrt(dsum(x@, x@, x@.len() as int))'])
+
+UNITS.append(Unit('C04_reductions', 'C04', [dot, norm], spec=RED_SPEC, preludes=('fax_l0', 'fmeth', 'stdspec', 'l1'),
+                  broadcast=('l0', 'l1_arith', 'l1_fun'), level='L1',
+                  notes='dot (8-way unrolled) and norm equal their definitions over the reals for every length'))
